@@ -159,9 +159,20 @@ Definition load_weights (x : xcfg) (m : mem) (r : regs) (depthwise : bool) (ofm_
   end.
 
 (* ------------------------------------------------------------------ the datapath *)
-Definition ifm_at (b : bank) (iv : fmview) (signed : bool) (zp : Z) (y x c : Z) : Z :=
-  if (y <? 0) || (fv_h iv <=? y) || (x <? 0) || (fv_w iv <=? x) then 0   (* padding contributes (zp - zp) *)
-  else rd_elem b (elem_addr iv y x c) (fv_elem iv) signed - zp.
+(* IFM resampling (NPU_SET_IFM_UPSCALE): 0 none; 1 NEAREST - every IFM element is seen twice in each direction; 2 TRANSPOSE -
+   the IFM elements sit at the even positions of a grid twice as large, the other positions hold the zero point.
+   Kernel coordinates (y, x) are in that upscaled space; its extent is twice the IFM extent. *)
+Definition up_factor (up : Z) : Z := if up =? 0 then 1 else 2.
+Definition ifm_inside (up : Z) (iv : fmview) (y x : Z) : bool :=
+  (0 <=? y) && (y <? up_factor up * fv_h iv) && (0 <=? x) && (x <? up_factor up * fv_w iv).
+Definition ifm_raw (up : Z) (b : bank) (iv : fmview) (signed : bool) (zp : Z) (y x c : Z) : Z :=
+  if up =? 0 then rd_elem b (elem_addr iv y x c) (fv_elem iv) signed
+  else if up =? 1 then rd_elem b (elem_addr iv (y / 2) (x / 2) c) (fv_elem iv) signed
+  else if (y mod 2 =? 0) && (x mod 2 =? 0) then rd_elem b (elem_addr iv (y / 2) (x / 2) c) (fv_elem iv) signed
+  else zp.
+Definition ifm_at (up : Z) (b : bank) (iv : fmview) (signed : bool) (zp : Z) (y x c : Z) : Z :=
+  if ifm_inside up iv y x then ifm_raw up b iv signed zp y x c - zp
+  else 0.   (* padding contributes (zp - zp) *)
 
 Definition sumz (l : list Z) : Z := fold_left Z.add l 0.
 
@@ -175,7 +186,7 @@ Definition conv_acc (b : bank) (iv : fmview) (r : regs) (signed : bool) (zp : Z)
   let idp := if depthwise then 1 else ifm_d in
   sumz (flat_map (fun ky => flat_map (fun kx =>
           map (fun ic =>
-                 ifm_at b iv signed zp (y0 + ky * dil_y r) (x0 + kx * dil_x r) (if depthwise then ch else ic)
+                 ifm_at (r0 r cmd0_NPU_SET_IFM_UPSCALE) b iv signed zp (y0 + ky * dil_y r) (x0 + kx * dil_x r) (if depthwise then ch else ic)
                  * nth_z w (((lc * kh + ky) * kw + kx) * idp + ic) 0)
               (zrange idp)) (zrange kw)) (zrange kh)).
 
@@ -208,7 +219,7 @@ Definition exec_conv (x : xcfg) (m : mem) (code : Z) (r : regs) : option mem :=
   let depthwise := code =? cmd0_NPU_OP_DEPTHWISE in
   let iv := ifm_view code r in
   let ov := ofm_view r in
-  if negb (act_ok r (fv_elem iv) (fv_elem ov)) || negb (r0 r cmd0_NPU_SET_IFM_UPSCALE =? 0) then None else
+  if negb (act_ok r (fv_elem iv) (fv_elem ov)) || negb (r0 r cmd0_NPU_SET_IFM_UPSCALE <=? 2) then None else
   match load_weights x m r depthwise (fv_d ov) (fv_d iv) with
   | None => None
   | Some wp =>
@@ -229,7 +240,8 @@ Definition exec_conv (x : xcfg) (m : mem) (code : Z) (r : regs) : option mem :=
 Definition exec_pool (x : xcfg) (m : mem) (param : Z) (r : regs) : option mem :=
   let iv := ifm_view cmd0_NPU_OP_POOL r in
   let ov := ofm_view r in
-  if negb (act_ok r (fv_elem iv) (fv_elem ov)) || negb (r0 r cmd0_NPU_SET_IFM_UPSCALE =? 0) then None else
+  if negb (act_ok r (fv_elem iv) (fv_elem ov)) || negb (r0 r cmd0_NPU_SET_IFM_UPSCALE <=? 2) then None else
+  let up := r0 r cmd0_NPU_SET_IFM_UPSCALE in
   let b := get_bank m (fv_region iv) in
   let sg := ifm_signed r in
   let s := r0 r cmd0_NPU_SET_KERNEL_STRIDE in
@@ -237,14 +249,15 @@ Definition exec_pool (x : xcfg) (m : mem) (param : Z) (r : regs) : option mem :=
   let window (y xx : Z) : list (Z * Z) :=
       flat_map (fun ky => map (fun kx => (y * k_stride_y s - r0 r cmd0_NPU_SET_IFM_PAD_TOP + ky,
                                           xx * k_stride_x s - r0 r cmd0_NPU_SET_IFM_PAD_LEFT + kx)) (zrange kw)) (zrange kh) in
-  let inb (p : Z * Z) : bool := (0 <=? fst p) && (fst p <? fv_h iv) && (0 <=? snd p) && (snd p <? fv_w iv) in
+  let inb (p : Z * Z) : bool := ifm_inside up iv (fst p) (snd p) in
+  let zpi0 := s16 (r0 r cmd0_NPU_SET_IFM_ZERO_POINT) in
+  let rdv (q : Z * Z) (c : Z) : Z := ifm_raw up b iv sg zpi0 (fst q) (snd q) c in
   let lo := s16 (r0 r cmd0_NPU_SET_ACTIVATION_MIN) in
   let hi := s16 (r0 r cmd0_NPU_SET_ACTIVATION_MAX) in
   if param =? 0 then
     Some (write_ofm m ov
       (map (fun p => let '(y, xx, c) := p in
-              let vs := map (fun q => rd_elem b (elem_addr iv (fst q) (snd q) c) (fv_elem iv) sg)
-                            (filter inb (window y xx)) in
+              let vs := map (fun q => rdv q c) (filter inb (window y xx)) in
               (y, xx, c, activate x m r (clampz lo hi (fold_left Z.max vs (- 2 ^ 40)))))
            (positions ov)))
   else if (param =? 1) && global_scale r then
@@ -254,8 +267,7 @@ Definition exec_pool (x : xcfg) (m : mem) (param : Z) (r : regs) : option mem :=
     let sh := (r1 r cmd1_NPU_SET_OFM_SCALE) / 4294967296 in
     Some (write_ofm m ov
       (map (fun p => let '(y, xx, c) := p in
-              let acc := sumz (map (fun q => rd_elem b (elem_addr iv (fst q) (snd q) c) (fv_elem iv) sg - zpi)
-                                   (filter inb (window y xx))) in
+              let acc := sumz (map (fun q => rdv q c - zpi) (filter inb (window y xx))) in
               (y, xx, c, activate x m r (clampz lo hi (apply_scale (rounding_mode r) acc sc sh + zpo))))
            (positions ov)))
   else if param =? 1 then
@@ -267,7 +279,7 @@ Definition exec_pool (x : xcfg) (m : mem) (param : Z) (r : regs) : option mem :=
       (map (fun p => let '(y, xx, c) := p in
               let win := filter inb (window y xx) in
               let cnt := Z.max 1 (Z.of_nat (List.length win)) in
-              let acc := sumz (map (fun q => rd_elem b (elem_addr iv (fst q) (snd q) c) (fv_elem iv) sg - zpi) win) in
+              let acc := sumz (map (fun q => rdv q c - zpi) win) in
               (y, xx, c, activate x m r (clampz lo hi ((2 * acc + cnt) / (2 * cnt) + zpo))))
            (positions ov)))
   else None.
